@@ -984,6 +984,8 @@ class Evaluator:
         srch = self._recognise_search()
         if srch is None:
             srch = self._recognise_any()
+        if srch is None:
+            srch = self._recognise_find()
         if srch is not None:
             self.summ.ret = self.summ.ret_full = srch
         # final value of every `&mut` parameter (as a function of the parameters), for callers that inline this function
@@ -1053,6 +1055,45 @@ class Evaluator:
             body = t if body is None else ("bin", "&&", body, t)
         import norm
         return norm.Normalizer()(("hof", "position", ("call", "core::slice::<impl [T]>::iter", (seq,)), body, ()))
+
+    def _recognise_find(self):
+        """`for x in it { let v = V(x); if P(v) { return Some(v) } } None` is `it.map(V).find(P)`: the value of such a function is
+        given in that form (the search idiom of iterator pipelines), so callers see one idiom."""
+        rs = self.summ.returns
+        if len(rs) != 2 or any(r[5] == "try" for r in rs):
+            return None
+        hit, miss = rs
+        if miss[5] != "tail" or any(c[0] in ("if", "match") for c in miss[1]) or hit[5] != "return":
+            return None
+        if miss[0] != ("ctor", "std::prelude::v1::None", ()) or hit[0][0] != "ctor" or hit[0][1] != "std::prelude::v1::Some" or len(hit[0][2]) != 1:
+            return None
+        pc = hit[1]
+        if not pc or pc[0][0] != "loop" or pc[0][2] != "for" or any(c[0] == "loop" for c in pc[1:]):
+            return None
+        lid = pc[0][1]
+        fors = [x for x in self.summ.sites if x.kind == "for" and x.node is not None and x.node.get("id") == lid]
+        if len(fors) != 1 or contains(fors[0].args[0], lambda x: x[0] == "loopvar"):
+            return None
+        it = fors[0].args[0]
+        val = hit[0][2][0]
+        if contains(val, lambda x: x[0] in ("loopvar", "mu")) or not contains(val, lambda x: x[0] == "elem"):
+            return None
+        mapped = ("hof", "map", it, val, ())
+        hole = ("elem", mapped)
+        body = None
+        for c in pc[1:]:
+            if c[0] != "if":
+                return None
+            t0 = replace(c[1], val, ("param", "#found"))
+            if contains(t0, lambda x: x[0] in ("loopvar", "mu", "elem")):
+                return None             # the test looks at more than the value that is returned
+            t = replace(t0, ("param", "#found"), hole)
+            t = t if c[2] else ("not", t)
+            body = t if body is None else ("bin", "&&", body, t)
+        if body is None:
+            return None
+        import norm
+        return norm.Normalizer()(("hof", "find", mapped, body, ()))
 
     def _recognise_any(self):
         """`for x in it { if P(x) { return true } } false` is `it.any(|x| P(x))` (and with the truth values swapped, `!it.any(..)`): the
